@@ -339,6 +339,27 @@ CHECKS["C11"] = {
 }
 
 
+CHECKS["C19"] = {
+    "level": "model_checking",
+    "technique": "exhaustive call-level and callback-level (nested) interleaving of several parsers sharing one configuration, with all shared memory write-protected, on the real code",
+    "level_text": "The library has no synchronisation points a scheduler could hook, so what is decided exhaustively is the non-interference that makes every thread schedule equivalent to a serial "
+                  "one: (1) the configuration, its hook lists and libhtp's own .data/.bss (the shared object's writable segment) are mprotect()ed read-only during the whole exploration - a single "
+                  "write by any parser execution faults deterministically and is reported with its address; (2) for 14 exchanges that exercise every subsystem, every ordered pair of parsers "
+                  "(same exchange on both, and different ones) is run under ALL call-level interleavings (up to 252 per pair) and with the other parser's next call NESTED inside each callback, "
+                  "and rotating triples under all interleavings of their first three calls; each parser's observation (callback trace with data hashes, bodies, transaction dumps) must equal "
+                  "its solo observation and no allocation may be left. (3) Supporting, sampling only: 8 threads x all captures x 20 rounds free-running under ThreadSanitizer.",
+    "level_note": "Instruction-level thread schedules are not enumerated (no scheduling points exist); the argument is non-interference by write-protection + exhaustive call/callback-level "
+                  "interleaving. The TSan pass is a sample and is labelled so. zlib and libc are outside the protected regions.",
+    "design_ref": "DESIGN.md §6 C19",
+    "rule": "ordered parser pairs x all interleavings of their call sequences + all (callback, pending call) nesting points; triples x all interleavings; distinct = distinct per-parser callback traces",
+    "bounds": {"quick": "14 exchanges, pairs (196) x <=252 interleavings + nesting points, 14 triples x <=1680; protected pass identical; TSan 8x20", "thorough": "+ every 7th capture (<= 30 exchanges); TSan 8x100"},
+    "mc_explanation": "states = distinct per-parser callback traces observed, transitions = API calls issued; every schedule runs on the implementation",
+    "assumptions": ["IDS personality with both body parsers and request decompression as the shared configuration"],
+    "jobs": lambda tier: [J("ilv", "plain"), J("ilv", "shared", ["--protect"]), J("ilv", "asan"),
+                          J("tsanrun", "tsan", ["--threads", "8", "--rounds", "20" if tier == "quick" else "100"], shards=1)],
+}
+
+
 def manifest():
     import json, os
     root = os.path.dirname(os.path.dirname(os.path.abspath(__file__)))
@@ -376,6 +397,7 @@ ENGINES = [
     {"name": "faultmc", "path": "mc/faultmc.c", "serves_properties": ["C18"], "kind_free_text": "E5: exhaustive k-th allocation failure enumeration under ASan+UBSan"},
     {"name": "mpartmc", "path": "mc/mpartmc.c", "serves_properties": ["C14"], "kind_free_text": "E1 on htp_mpartp_parse: generated multipart bodies x cut sets vs generator ground truth"},
     {"name": "enum_c11", "path": "mc/enum_c11.c", "serves_properties": ["C11"], "kind_free_text": "E3: ambiguity trigger x spelling x permutation x cut product through the real request path"},
+    {"name": "ilv", "path": "mc/ilv.c", "serves_properties": ["C19"], "kind_free_text": "E7: all call-level and nested interleavings of parsers sharing one cfg; shared memory mprotect()ed; + tsanrun free-running TSan pass"},
     {"name": "cutmc", "path": "mc/cutmc.c", "serves_properties": ["C01", "C02", "C03", "C04", "C06", "C10", "C16"], "kind_free_text": "E1: stateless deviation-bounded explorer of segmentation / generated grammar on the real code"},
 ]
 
